@@ -21,7 +21,7 @@ RULE = ("Hypothesis-generated base configurations x a non-empty generated subset
         "knob is live; distinct = (configuration, transformation set).")
 ASSUMPTIONS = [
     "for the '= rainfed' transformations the base run is the same configuration with the rainfed strategy",
-    "field-management transformations are applied to the in-season field management object",
+    "field-management transformations are applied either to the in-season or to the fallow field management object (drawn); for the fallow object the off-season is simulated so that it is in force on some days",
 ]
 BUDGET = {"quick": 170, "thorough": 2600}
 PROFILE = gen.profile(seasons=(1, 2), max_days=520, p_gdd=0.25, p_custom_soil=0.2, p_gw=0.15, p_fm=0.6, p_ffm=0.2,
@@ -44,7 +44,10 @@ def cases(draw):
              eff=float(draw(st.integers(30, 95))), wet=float(draw(st.integers(10, 90))),
              neutral_mulch=draw(st.sampled_from(["cover0", "factor0"])),
              neutral_irr=draw(st.sampled_from(["depth0", "empty_schedule", "maxirr0", "maxseason0"])),
-             neutral_method=draw(st.sampled_from([1, 2, 3, 5])))
+             neutral_method=draw(st.sampled_from([1, 2, 3, 5])),
+             target=draw(st.sampled_from(["fm", "fm", "ffm"])))
+    if p["target"] == "ffm":
+        cfg["off_season"] = True   # so that fallow days (and the fallow field management) are simulated
     return dict(cfg=cfg, kinds=kinds, p=p)
 
 
@@ -55,7 +58,8 @@ def strategy(tier):
 def transform(cfg, kinds, p):
     """Return (base, variant, control) configurations; control switches the touched features ON."""
     base = copy.deepcopy(cfg)
-    fm = dict(base.get("fm") or {})
+    FM = p.get("target", "fm")          # which field-management object the transformation touches (in-season or fallow)
+    fm = dict(base.get(FM) or {})
     irr = dict(base.get("irr") or {"method": 0})
     if "mulch_off" in kinds or "mulch_neutral" in kinds:
         fm["mulches"] = False
@@ -70,11 +74,11 @@ def transform(cfg, kinds, p):
         fm.pop("curve_number_adj_pct", None)
     if "rainfed_eff" in kinds or "irr_neutral" in kinds:
         irr = {"method": 0}
-    base["fm"] = fm or None
+    base[FM] = fm or None
     base["irr"] = irr
     var = copy.deepcopy(base)
     ctl = copy.deepcopy(base)
-    vfm, cfm = dict(var["fm"] or {}), dict(ctl["fm"] or {})
+    vfm, cfm = dict(var[FM] or {}), dict(ctl[FM] or {})
     virr, cirr = dict(var["irr"]), dict(ctl["irr"])
     if "mulch_off" in kinds:
         vfm.update(mulches=False, mulch_pct=p["mulch_pct"], f_mulch=p["f_mulch"])
@@ -133,7 +137,7 @@ def transform(cfg, kinds, p):
                 virr = {"method": 5, "depth": p["depth"]}
             cirr = dict(virr)
             virr["MaxIrr" if k == "maxirr0" else "MaxIrrSeason"] = 0.0
-    var["fm"], ctl["fm"] = (vfm or None), (cfm or None)
+    var[FM], ctl[FM] = (vfm or None), (cfm or None)
     var["irr"], ctl["irr"] = virr, cirr
     return base, var, ctl
 
@@ -142,7 +146,9 @@ def evaluate(case):
     res = Result()
     kinds, p = case["kinds"], case["p"]
     base, var, ctl = transform(case["cfg"], kinds, p)
-    res.sample = {"cfg": describe(base), "kinds": kinds, "variant_fm": var.get("fm"), "variant_irr": var.get("irr"), "hash": cfg_hash(case)}
+    FM = p.get("target", "fm")
+    res.sample = {"cfg": describe(base), "kinds": kinds, "target": FM, "variant_" + FM: var.get(FM), "variant_irr": var.get("irr"), "hash": cfg_hash(case)}
+    res.labels.add("target:" + FM)
     for k in kinds:
         res.labels.add(k + (":" + p["neutral_irr"] if k == "irr_neutral" else ":" + p["neutral_mulch"] if k == "mulch_neutral" else ""))
     b, info = run_or_classify(base)
@@ -160,8 +166,8 @@ def evaluate(case):
         return res
     d = compare_outputs(v, b)
     if d:
-        res.fail("neutral_changes_results:" + "+".join(sorted(kinds)), "neutral transformation %s (fm %s, irr %s, harvest %s) changes the results: %s" % (
-            kinds, var.get("fm"), var.get("irr"), var["crop"].get("harvest"), d))
+        res.fail("neutral_changes_results:" + "+".join(sorted(kinds)), "neutral transformation %s (%s %s, irr %s, harvest %s) changes the results: %s" % (
+            kinds, FM, var.get(FM), var.get("irr"), var["crop"].get("harvest"), d))
     live_kinds = [k for k in kinds if k != "harvest_default"]
     if live_kinds:
         c, info3 = run_or_classify(ctl)
